@@ -493,7 +493,6 @@ func TestC06KnownK1(t *testing.T) {
 	got, items, _, _ := perPIDCanon(raw[1:])
 	rec.Evals(1)
 	rec.Distinct(1)
-	rec.Distinct(2)
 	rec.Sample(map[string]interface{}{"second_packet_payload_head": fmt.Sprintf("%x", pk[1].Payload[:12])})
 	known := map[string]bool{}
 	for _, s := range clean[0x100] {
